@@ -136,6 +136,15 @@ def rule_D5(tree: Tree) -> RuleResult:
                 if t is not None and lab == "T" and src(t) == "data is None":
                     skip_ok = True
     r.ob(skip_ok, Finding("D5", "quic.quic_output_builder:QUICOutputbuilder.build:skip-rule", "a frame may be skipped only under `data is None`", qb.module.line(qb.node)))
+    # run(): the switch is only passed on; nothing in run() is control-dependent on it and nothing re-orders the result under it
+    run = tree.func("main", "run")
+    rcfg = cfg_of(run.node)
+    r.instances += 1
+    dep = []
+    for n in rcfg.stmt_nodes():
+        if _switch_conditions(rcfg, n.id, {"metadata"}):
+            dep.append(src(n.ast, 70) if n.ast is not None else "?")
+    r.ob(not dep, Finding("D5", "main:run:meta-dependent", f"run() executes {dep[:3]} only with (or only without) -a: the switch may only be handed to the sessions", run.module.line(run.node)))
     # the switch reaches both consumers from args.metadata
     from ..prov import Prov
     pv = Prov(tree)
